@@ -7,6 +7,7 @@ mod c02;
 mod c04;
 mod c06;
 mod c07;
+mod c08;
 mod c10;
 mod c11;
 mod c12;
@@ -39,6 +40,7 @@ fn main() {
         replay: None,
         tmpdir: "/verif/target/tmp".into(),
         scale: 1,
+        user_only: false,
     };
     let mut i = 2;
     while i < args.len() {
@@ -77,11 +79,28 @@ fn main() {
         "C02" => c02::run_c02(&cfg, &mut log),
         "C03" => c02::run_c03(&cfg, &mut log),
         "C04" => c04::run(&cfg, &mut log),
+        "C05" => {
+            cfg.user_only = true;
+            for rc in my_roots(&cfg) {
+                let mut d = std::collections::BTreeSet::new();
+                user_defs(&rc.ty, &mut d);
+                for x in d {
+                    log.set("definitions", x);
+                }
+                log.set("instantiations", rc.name);
+            }
+            c01::run(&cfg, &mut log);
+            c02::run_c02(&cfg, &mut log);
+            c02::run_c03(&cfg, &mut log);
+        }
         "C06" => {
             c06::run(&cfg, &mut log);
             c06::check_corpus(&cfg, &mut log, "/verif/corpus/golden.tsv");
         }
         "C07" => c07::run(&cfg, &mut log),
+        "C08" => c08::run_c08(&cfg, &mut log),
+        "C09" => c08::run_c09(&cfg, &mut log),
+        "C08S" => c08::run_strace_workload(&cfg, &mut log),
         "C10" => c10::run(&cfg, &mut log),
         "C11" => c11::run(&cfg, &mut log),
         "C12" => c12::run(&cfg, &mut log),
